@@ -259,8 +259,95 @@ def getCFilterReorg (hs : Hashing) (s : State) (rg : Reorg) (c : Call) : Outcome
             | none => ⟨s1, .errFetchFailed, .nowhere, hp.2, rg'⟩
             | some r => ⟨s1, .ret r.fid, .network, hp.2, rg'⟩
 
+/-! ### the database layer under `GetCFilter`, with concurrent writers
+
+`FilterDB.FetchFilter` opens a read transaction of the bbolt file, looks the key
+up and decodes (copies) the value.  A read transaction sees the snapshot `db`;
+the bytes it hands out point into the memory-mapped page and are valid only
+while the transaction is open.  `ws` is what concurrent writers commit between
+the END of that read transaction and the next thing `GetCFilter` does (any number
+of write transactions: pages are freed and re-used, the file grows and is
+re-mapped).  `inTx`: the value is decoded inside the transaction, as the code
+does.  If it were decoded afterwards, it would be decoded from whatever the
+re-used pages hold by then: `garble v`, an arbitrary function of the stored value. -/
+
+def dbCommit (db : List (Nat × Nat)) : List (Nat × Nat) → List (Nat × Nat)
+  | [] => db
+  | w :: ws => dbCommit (dbPut db w.1 w.2) ws
+
+def dbFetch (inTx : Bool) (garble : Nat → Nat) (db ws : List (Nat × Nat)) (k : Nat) : Option Nat :=
+  match lookup db k with
+  | none => none
+  | some v => if inTx || ws.isEmpty then some v else some (garble v)
+
+/-- the branch of `GetCFilter` after the cache and the database missed -/
+def netBranch (hs : Hashing) (s : State) (c : Call) : Outcome :=
+  match prepare s.chain c.target c.batch c.maxBatch with
+  | .error _ => ⟨s, .errPrepare, .nowhere, [], none⟩
+  | .ok q =>
+    let hp := feed hs c.cont (q, s.store) c.resps
+    let s1 : State := { s with store := hp.1.2 }
+    let rg := some (q.start, q.stop)
+    match c.verdict with
+    | .quit => ⟨s1, .errQuit, .nowhere, hp.2, rg⟩
+    | .err => ⟨s1, .errQuery, .nowhere, hp.2, rg⟩
+    | .nil =>
+      match hp.1.1.found with
+      | none => ⟨s1, .errFetchFailed, .nowhere, hp.2, rg⟩
+      | some r => ⟨s1, .ret r.fid, .network, hp.2, rg⟩
+
+/-- `GetCFilter` with writers `ws` committing right after the read transaction of
+its database lookup was closed (no database transaction, hence no such moment,
+when the memory cache answers). -/
+def getCFilterW (inTx : Bool) (garble : Nat → Nat) (hs : Hashing) (s : State) (c : Call) (ws : List (Nat × Nat)) : Outcome :=
+  if c.regular = false then ⟨s, .errType, .nowhere, [], none⟩
+  else
+    match s.store.cache.step (.get c.target) with
+    | (cache', .val v) => ⟨{ s with store := { s.store with cache := cache' } }, .ret v, .cache, [], none⟩
+    | (cache', _) =>
+      let st1 : Store := { s.store with cache := cache', db := dbCommit s.store.db ws }
+      match dbFetch inTx garble s.store.db ws c.target with
+      | some fid => ⟨{ s with store := st1 }, .ret fid, .db, [], none⟩
+      | none => netBranch hs { s with store := st1 } c
+
+/-! ### filling the cache from the database ("read-ahead")
+
+The code puts a filter into the memory cache at one place only: in
+`handleResponse`, after every test passed.  A cache fill from the database is
+modelled in two forms.  `cacheFillChecked` validates each (block, filter) pair
+against the headers committed NOW before it enters the cache.  `readAheadNaive`
+is the shape of an unvalidated optimisation: the stored filters of the asked
+blocks come back with the missing ones left out and are paired with the asked
+blocks by position. -/
+
+def goodB (hs : Hashing) (fhs : List Nat) (blk fid : Nat) : Bool :=
+  decide (1 ≤ blk) && decide (blk < fhs.length) && (hs.hdr fid (fhs.getD (blk - 1) 0) == fhs.getD blk 0)
+
+def cachePut (st : Store) (k v z : Nat) : Store := { st with cache := (st.cache.step (.put k v z)).1 }
+
+def cacheFillChecked (hs : Hashing) (fhs : List Nat) : Store → List (Nat × Nat × Nat) → Store
+  | st, [] => st
+  | st, (k, v, z) :: rest =>
+    cacheFillChecked hs fhs (if goodB hs fhs k v then cachePut st k v z else st) rest
+
+def cacheFillUnchecked : Store → List (Nat × Nat × Nat) → Store
+  | st, [] => st
+  | st, (k, v, z) :: rest => cacheFillUnchecked (cachePut st k v z) rest
+
+/-- the stored filters of the asked blocks, "blocks for which no filter is stored are left out" -/
+def fetchPresent (db : List (Nat × Nat)) (ks : List Nat) : List Nat := ks.filterMap (lookup db)
+
+def readAheadNaive (st : Store) (ks : List Nat) : Store :=
+  cacheFillUnchecked st ((ks.zip (fetchPresent st.db ks)).map (fun p => (p.1, p.2, 1)))
+
+/-- the same with every pair validated before it enters the cache -/
+def readAheadChecked (hs : Hashing) (fhs : List Nat) (st : Store) (ks : List Nat) : Store :=
+  cacheFillChecked hs fhs st ((ks.zip (fetchPresent st.db ks)).map (fun p => (p.1, p.2, 1)))
+
 inductive Op where
   | get (c : Call)
+  /-- a call during which concurrent writers commit `ws` right after its database read transaction -/
+  | getW (c : Call) (ws : List (Nat × Nat))
   /-- the filter headers from height `h` on are rolled back and committed anew
   (reorg back and forth, `AssertFilterHeader` reset + resync, …) -/
   | recommit (h : Nat) (newfhs : List Nat)
@@ -270,6 +357,7 @@ deriving Repr
 
 def step (hs : Hashing) (s : State) : Op → State
   | .get c => (getCFilter hs s c).st
+  | .getW c ws => (getCFilterW true id hs s c ws).st
   | .recommit h nf => { s with chain := { s.chain with fhs := s.chain.fhs.take h ++ nf } }
   | .restart => { s with store := { s.store with cache := { cap := s.store.cache.cap } } }
 
